@@ -7,12 +7,15 @@ usage: tools/seedcheck.py <ID> [extra check ids...]
  3. store /verif/seeded/<ID>/{patch.diff, demo.rs, notes.md, meta.json}
 """
 import subprocess, sys, os, json, shutil
-ID = sys.argv[1]; extra = sys.argv[2:]
-W = f"/tmp/seed/{ID}/repo"; OUT = f"/tmp/seed/{ID}/out"
+args = [a for a in sys.argv[1:] if not a.startswith("--round")]
+ROUND = next((a.split("=")[1] for a in sys.argv[1:] if a.startswith("--round=")), "1")
+ID = args[0]; extra = args[1:]
+BASE = "/tmp/seed" if ROUND == "1" else f"/tmp/seed{ROUND}"
+W = f"{BASE}/{ID}/repo"; OUT = f"{BASE}/{ID}/out"
 def sh(cmd, cwd=None, timeout=3600):
     return subprocess.run(cmd, shell=True, cwd=cwd, capture_output=True, text=True, timeout=timeout)
 env = "CARGO_NET_OFFLINE=true "
-meta = {"property": ID, "ran": []}
+meta = {"property": ID, "round": int(ROUND), "ran": []}
 patch = open(f"{OUT}/patch.diff").read()
 # normalise: make sure worktree src has exactly the patch
 sh("git checkout -- src", W)
@@ -41,7 +44,7 @@ try:
 finally:
     sh("git checkout -- .", "/repo")
 meta["checks"] = res
-d = f"/verif/seeded/{ID}"; os.makedirs(d, exist_ok=True)
+d = f"/verif/seeded/{ID}" if ROUND == "1" else f"/verif/seeded/{ID}-r{ROUND}"; os.makedirs(d, exist_ok=True)
 for f in ["patch.diff", "demo.rs", "notes.md"]:
     if os.path.exists(f"{OUT}/{f}"): shutil.copy(f"{OUT}/{f}", f"{d}/{f}")
 notes = open(f"{OUT}/notes.md").read() if os.path.exists(f"{OUT}/notes.md") else ""
